@@ -76,19 +76,22 @@ class TunnelEndpoint(Endpoint):
         """
         Ensure packets are only delivered if they follow they are properly encrypted.
         """
-        # Select the listeners like the wrapped endpoint does: communities are registered by prefix
-        prefix = packet[1][:self.endpoint.prefixlen]
-        listeners = self.endpoint._prefix_map.get(prefix, self.endpoint._listeners)  # noqa: SLF001
+        # A dispatcher keeps no listeners itself, it registers them with each of its interfaces
+        sources = list(getattr(self.endpoint, "interfaces", {}).values()) or [self.endpoint]
         delivered: list[EndpointListener] = []
-        for listener in listeners:
-            # Anonymized communities should ignore traffic received from the socket
-            # Non-anonymized communities should ignore traffic received from the TunnelCommunity
-            if getattr(listener, "anonymize", False) != from_tunnel:
-                continue
-            if any(listener is other for other in delivered):
-                continue
-            delivered.append(listener)
-            self.endpoint._deliver_later(listener, packet)  # noqa: SLF001
+        for source in sources:
+            # Select the listeners like the wrapped endpoint does: communities are registered by prefix
+            prefix = packet[1][:source.prefixlen]
+            listeners = source._prefix_map.get(prefix, source._listeners)  # noqa: SLF001
+            for listener in listeners:
+                # Anonymized communities should ignore traffic received from the socket
+                # Non-anonymized communities should ignore traffic received from the TunnelCommunity
+                if getattr(listener, "anonymize", False) != from_tunnel:
+                    continue
+                if any(listener is other for other in delivered):
+                    continue
+                delivered.append(listener)
+                source._deliver_later(listener, packet)  # noqa: SLF001
 
     def add_listener(self, listener: EndpointListener) -> None:
         """
